@@ -33,7 +33,7 @@ import os, sys, json, re, time, random, hashlib, subprocess, fractions, importli
 VERIF = os.environ.get('VERIF_DIR', '/verif')
 COQ_DIR = os.path.join(VERIF, 'coq')
 TL_ROOT = os.environ.get('TL_ROOT', '/repo')
-SHARD = int(os.environ.get('VERIF_SHARD', '300'))
+DEFAULT_SHARD = int(os.environ.get('VERIF_SHARD', '300'))
 JOBS = int(os.environ.get('VERIF_JOBS', '14'))
 GUARD = 'TRACKLIB_VERIF'
 
@@ -166,6 +166,7 @@ def check_theorems(theorem_file):
 def run_coq_cases(prop, stream, terms, workdir):
     """write sharded cases files, compile them in parallel, return (set of disagreeing indices, errors)"""
     files = []
+    SHARD = getattr(stream, 'shard', None) or max(25, min(DEFAULT_SHARD, -(-len(terms) // JOBS)))
     for s in range(0, len(terms), SHARD):
         name = 'cases_%s_%s_%d' % (prop, stream.name, s // SHARD)
         path = os.path.join(workdir, name + '.v')
@@ -283,13 +284,17 @@ def main(prop, tier='quick', seed=None, replay=None):
                         d = json.load(open(os.path.join(cdir, fn)))
                         corpus += [c['case'] for c in d.get('cases', []) if c.get('stream') == st.name]
                 cases = corpus + st.generate(rng, st.budget[tier], tier)
+            t_s = time.time()
             observed = [quiet_call(st.run_impl, c) for c in cases]
+            t_impl = time.time() - t_s
             terms = []; idx = []
             for i, (c, o) in enumerate(zip(cases, observed)):
                 t = st.coq_case(c, o)
                 if t is not None:
                     terms.append(t); idx.append(i)
+            t_s = time.time()
             bad, errs = run_coq_cases(prop, st, terms, work) if terms else (set(), [])
+            t_coq = time.time() - t_s
             bad = sorted(idx[b] for b in bad)
             coq_errors += [dict(e, stream=st.name) for e in errs]
             ofail = []
@@ -318,7 +323,7 @@ def main(prop, tier='quick', seed=None, replay=None):
             tot_eval += len(cases); tot_distinct += len(nt)
             samples += [{'stream': st.name, 'case': cases[i], 'observed': observed[i]} for i in range(min(2, len(cases)))]
             streams_ev.append({'stream': st.name, 'rule': st.rule, 'cases': len(cases), 'model_evaluated': len(terms), 'distinct_nontrivial': len(nt),
-                               'model_disagreements': len(bad), 'oracle_failures': len(ofail), 'distribution': dist})
+                               'model_disagreements': len(bad), 'oracle_failures': len(ofail), 'impl_s': round(t_impl, 1), 'coq_s': round(t_coq, 1), 'distribution': dist})
 
         # ------------------------------------------------------------------ verdict
         verdict = None; replay_cases = []; reason = None
